@@ -78,7 +78,8 @@ func (l *Lexer) nextInsideToken() token.Token {
 				tok.Type = "INT"
 			}
 
-			break
+			tok.LineNumber = l.curLine
+			return tok
 		}
 		tok = l.newToken(token.DOT)
 	case '+':
@@ -182,7 +183,7 @@ func (l *Lexer) nextInsideToken() token.Token {
 				break
 			}
 		}
-		tok = l.nextInsideToken()
+		return l.nextInsideToken()
 	case '[':
 		tok = l.newToken(token.LBRACKET)
 	case ']':
